@@ -44,6 +44,9 @@ def run(chk):
     agreed = []
     for i, c in enumerate(cases):
         texts = set()
+        allres = [r for res in per_seed.values() for r in res[i]]
+        if allres and all(r[0] != "ok" for r in allres) and len(set(str(r[:2]) for r in allres)) == 1:
+            continue        # content the library refuses to write in every order (e.g. two variants with one UID): nothing to compare
         for seed, res in per_seed.items():
             for r in res[i]:
                 if r[0] != "ok":
